@@ -70,6 +70,7 @@ type Sched struct {
 	aborted atomic.Bool
 	// Counters of rare conditions (probes).
 	HugeAllocs    int
+	pools         map[*sync.Pool][]interface{}
 	LockContended int
 	SelectMulti   int
 	MapRanges     int
@@ -460,6 +461,47 @@ func sortKeys[K comparable](keys []K) {
 		out[i] = keys[j]
 	}
 	copy(keys, out)
+}
+
+// ---- deterministic sync.Pool ----
+//
+// sync.Pool hands objects back depending on the processor the goroutine happens to run on and on
+// garbage collection: a source of nondeterminism the simulator does not otherwise control. Under the
+// scheduler a pool is a plain LIFO stack per Pool value; with no scheduler the real pool is used.
+
+func PoolGet(p *sync.Pool) interface{} {
+	s := cur.Load()
+	if s == nil || s.current() == nil {
+		return p.Get()
+	}
+	s.mu.Lock()
+	st := s.pools[p]
+	var x interface{}
+	if n := len(st); n > 0 {
+		x = st[n-1]
+		s.pools[p] = st[:n-1]
+		s.mu.Unlock()
+		return x
+	}
+	s.mu.Unlock()
+	if p.New != nil {
+		return p.New()
+	}
+	return nil
+}
+
+func PoolPut(p *sync.Pool, x interface{}) {
+	s := cur.Load()
+	if s == nil || s.current() == nil {
+		p.Put(x)
+		return
+	}
+	s.mu.Lock()
+	if s.pools == nil {
+		s.pools = map[*sync.Pool][]interface{}{}
+	}
+	s.pools[p] = append(s.pools[p], x)
+	s.mu.Unlock()
 }
 
 // ---- allocation guard ----
